@@ -158,7 +158,7 @@ static void run_matrix(uint64_t idx, pv_rng* rng) {
     if (st0 != OSTATUS[o]) { pv_countf(1, "matrix.other_outcome.%s.%s", ENAME[e], ONAME[o]); }      /* status agreement with the model is judged by C01/C06/C09 */
     ok &= ledger_ok(what, held, held + (st0 == POLYSEED_OK ? 1 : 0));
     if (st0 == POLYSEED_OK) {
-        if (!pv_ledger_is_live(s)) { ok = false; pv_violation("C15/seed-not-from-injected-allocator", "%s returned a seed the injected allocator does not know", what); }
+        if (!pv_ledger_is_live(s)) { ok = false; pv_violation("C15/seed-not-from-injected-allocator", "%s returned a seed that does not lie in any block the injected allocator handed out", what); }
         if (in.have_seed && e != E_CREATE) { const char* mm = pv_seed_mismatch(s, &in.m, in.coin); if (mm) { ok = false; pv_violation("C15/junk-memory-visible", "%s: seed built in junk-filled memory differs from the model: %s", what, mm); } }
         pv_api_free(s);
         ok &= ledger_ok("free", held + 1, held);
